@@ -1,4 +1,6 @@
 import NGF.Model.PanicSites
+import NGF.Model.DerefSites
+import NGF.Model.NilGuards
 import NGF.Model.Proto
 /-
 Driver entry for C05.
@@ -173,13 +175,165 @@ def judgeLine (line : String) : String :=
     | some c => "fail " ++ c
   | _, _, _, _, _ => "bad-op"
 
+/-- `deref` line: the eight columns of one inventory row separated by TABs; answer: `guarded` |
+`justified <why>` | `UNJUSTIFIED` (the decision `NGF.DerefSites.siteOk` of the obligation). -/
+def derefLine (line : String) : String :=
+  match line.splitOn "\t" with
+  | [id, file, fn, cls, expr, gk, g, n] =>
+    match id.toNat?, n.toNat? with
+    | some id, some n => NGF.DerefSites.verdict ⟨id, file, fn, cls, expr, gk, g, n⟩
+    | _, _ => "bad-op"
+  | _ => "bad-op"
+
+/-! ### unit streams (task C05-nil): shapes of API objects → the mirrors of `NGF.Model.NilGuards`
+
+  unit line  : `k=<filter|listener|backendref|btp|pathmatch> <shape fields>` (harness/c05/unit.go)
+  output     : `out=<ok|panic> site=<gsite|-> rep=<0|1|n> valid=<0|1|-> adm=<0|1> uns=<0|1>`
+               rep = the real function must report an error / condition (pathmatch: the exact number of errors)
+  ujudge line: the same shape fields + `rout=<ok|panic> rsite=<…> rrep=<n>` (what the REAL function did)
+  output     : `ok` | `fail panic-on-admissible` | `fail silent-unsupported`  — the property on real outputs, with
+               admissibility / "unsupported" decided by the Lean predicates from the shape -/
+namespace Unit
+open NGF.NilGuards
+
+def pBool (s : String) : Option Bool := parseBool s
+
+def pPathMod (s : String) : Option (Option PathMod) :=
+  if s == "-" then some none else
+  match s.splitOn "/" with
+  | [t, f, p] => do let f ← pBool f; let p ← pBool p; pure (some { type := t, hasFull := f, hasPrefix := p })
+  | _ => none
+
+def pPathFilter (s : String) : Option (Option PathFilter) :=
+  if s == "-" then some none else
+  match s.splitOn "," with
+  | [pm, bad] => do let pm ← pPathMod pm; let bad ← pBool bad; pure (some { path := pm, bad := bad })
+  | _ => none
+
+def pOptBool (s : String) : Option (Option Bool) := if s == "-" then some none else (pBool s).map some
+
+def pFilter (fs : List String) : Option Filter := do
+  let g ← (field fs "g").bind pBool
+  let t ← field fs "t"
+  let rd ← (field fs "rd").bind pPathFilter
+  let rw ← (field fs "rw").bind pPathFilter
+  let qh ← (field fs "qh").bind pOptBool
+  let sh ← (field fs "sh").bind pOptBool
+  let er ← (field fs "er").bind pOptBool
+  let mr ← (field fs "mr").bind pBool
+  pure { grpc := g, type := if t == "-" then "" else t, redirect := rd, urlRewrite := rw, reqHdr := qh, respHdr := sh,
+         extRef := er, mirror := mr }
+
+def pTls (s : String) : Option (Option Tls) :=
+  if s == "-" then some none else
+  match s.splitOn "," with
+  | [m, nc, k, g, no] => do
+    let nc ← nc.toNat?; let k ← pBool k; let g ← pBool g; let no ← no.toNat?
+    pure (some { mode := if m == "nil" then none else some m, nCerts := nc, kindOk := k, groupOk := g, nOpts := no })
+  | _ => none
+
+def pListener (fs : List String) : Option ListenerIn := do
+  let p ← field fs "p"
+  let t ← (field fs "tls").bind pTls
+  let ob ← (field fs "ob").bind pBool
+  let sec ← (field fs "sec").bind pBool
+  pure { proto := p, tls := t, otherBad := ob, secretOk := sec }
+
+def pOptNat (s : String) : Option (Option Nat) := if s == "-" then some none else s.toNat?.map some
+
+def pBackendRef (fs : List String) : Option BackendRefShape := do
+  let g ← field fs "g"; let kd ← (field fs "kd").bind pBool; let x ← (field fs "x").bind pBool
+  let gr ← (field fs "gr").bind pBool; let port ← (field fs "port").bind pOptNat; let w ← (field fs "w").bind pBool
+  let nf ← (field fs "nf").bind String.toNat?; let svc ← (field fs "svc").bind pBool
+  pure { group := g, kindOk := kd, crossNs := x, granted := gr, port := port, weightOk := w, nFilters := nf, svcExists := svc }
+
+def pBtp (fs : List String) : Option BtpShape := do
+  let full ← (field fs "full").bind pBool; let host ← (field fs "host").bind pBool
+  let ca ← (field fs "ca").bind pOptNat; let cak ← (field fs "cak").bind pBool; let cm ← (field fs "cm").bind pBool
+  let wk ← field fs "wk"
+  pure { ancestorsFull := full, hostOk := host, caRefs := ca, caKindOk := cak, caResolves := cm,
+         wellKnown := if wk == "-" then none else some wk }
+
+def okValue : String := "/coffee"
+def badValue : String := "/a{b}"
+def internalValue : String := "/_ngf-internal/x"
+/-- `validator.ValidatePathInMatch` on the three values the harness uses -/
+def valueOk (v : String) : Bool := v != badValue
+
+def pPathMatch (fs : List String) : Option (Option PanicSites.PathMatch) := do
+  let t ← field fs "pt"; let v ← field fs "pv"
+  if t == "-" then pure none else
+  let val ← if v == "nil" then some none else if v == "ok" then some (some okValue)
+    else if v == "internal" then some (some internalValue) else if v == "bad" then some (some badValue) else none
+  pure (some { type := if t == "nil" then none else some t, value := val })
+
+structure Pred where
+  out   : String
+  site  : String
+  rep   : Nat
+  valid : String
+  adm   : Bool
+  uns   : Bool
+
+def b01 (b : Bool) : String := if b then "1" else "0"
+
+def ofExcept {α : Type} (e : Except GSite α) (rep : α → Nat) (valid : α → String) (adm uns : Bool) : Pred :=
+  match e with
+  | .error s => { out := "panic", site := s.name, rep := 0, valid := "-", adm := adm, uns := uns }
+  | .ok a => { out := "ok", site := "-", rep := rep a, valid := valid a, adm := adm, uns := uns }
+
+def predict (fs : List String) : Option Pred :=
+  match field fs "k" with
+  | some "filter" => (pFilter fs).map fun f =>
+      ofExcept (filterPipeline f) (fun b => if b then 1 else 0) (fun _ => "-") f.adm f.unsupported
+  | some "listener" => (pListener fs).map fun l =>
+      ofExcept (listenerPipeline l) (fun o => if o.hasConds then 1 else 0) (fun o => b01 o.valid) l.adm l.unsupported
+  | some "backendref" => (pBackendRef fs).map fun r =>
+      ofExcept (backendRefPipeline r) (fun v => if v then 0 else 1) (fun v => b01 v) r.adm r.unsupported
+  | some "btp" => (pBtp fs).map fun b =>
+      ofExcept (processBtp b) (fun o => if o.2 > 0 then 1 else 0) (fun o => b01 o.1) b.adm b.unsupported
+  | some "pathmatch" => (pPathMatch fs).map fun p =>
+      -- the unit stream runs validatePathMatch only (the conversion in upsertRoute is covered by the `pt=` view
+      -- of the pipeline stream): the exact number of errors is compared
+      { out := "ok", site := "-", rep := PanicSites.validatePathMatch valueOk p, valid := "-", adm := pathMatchAdm p,
+        uns := pathMatchUnsupported p }
+  | _ => none
+
+def unitLine (line : String) : String :=
+  match predict (line.splitOn " ") with
+  | none => "bad-op"
+  | some p => s!"out={p.out} site={p.site} rep={p.rep} valid={p.valid} adm={b01 p.adm} uns={b01 p.uns}"
+
+/-- The property on what the REAL function did with a shape: an admissible object never panics, and an admissible
+object that uses something NGF does not implement is reported (error / condition), never silently accepted. -/
+def ujudge (adm uns : Bool) (rout : String) (rrep : Nat) : Option String :=
+  if !adm then none
+  else if rout == "panic" then some "panic-on-admissible"
+  else if rout != "ok" then some "bad-outcome"
+  else if uns && rrep == 0 then some "silent-unsupported"
+  else none
+
+def ujudgeLine (line : String) : String :=
+  let fs := line.splitOn " "
+  match predict fs, field fs "rout", (field fs "rrep").bind String.toNat? with
+  | some p, some rout, some rrep =>
+    match ujudge p.adm p.uns rout rrep with
+    | none => "ok"
+    | some c => "fail " ++ c
+  | _, _, _ => "bad-op"
+
+end Unit
+
 def driver (args : List String) : IO UInt32 := do
   let stdin ← IO.getStdin
   let stdout ← IO.getStdout
   match args with
   | ["model"] => forEachLine stdin fun l => stdout.putStrLn (modelLine l)
   | ["judge"] => forEachLine stdin fun l => stdout.putStrLn (judgeLine l)
-  | _ => IO.eprintln "usage: C05 model|judge"; return 2
+  | ["deref"] => forEachLine stdin fun l => stdout.putStrLn (derefLine l)
+  | ["unit"] => forEachLine stdin fun l => stdout.putStrLn (Unit.unitLine l)
+  | ["ujudge"] => forEachLine stdin fun l => stdout.putStrLn (Unit.ujudgeLine l)
+  | _ => IO.eprintln "usage: C05 model|judge|deref|unit|ujudge"; return 2
   return 0
 
 end NGF.PanicSites
